@@ -140,6 +140,12 @@ theorem Pass.deferred_deadline {jc : JCV} {rjs : List JobV} {s : Sys} {ac : Int}
     · rw [h2] at hx2; cases hx2
     · exact ih hok x hx hx1 hx2
   | rejectLost => intro h; cases h
+  | @rejectNoop j rest s ac cs s' ok cur h1 h2 _ _ _ _ _ _ _ hp ih =>
+    intro hok x hx hx1 hx2
+    rcases List.mem_cons.mp hx with rfl | hx
+    · rw [h2] at hx2; cases hx2
+    · exact ih hok x hx hx1 hx2
+  | rejectNoopLost => intro h; cases h
   | casFail => intro h; cases h
   | startFail => intro h; cases h
   | @startOk j rest s ac cs s' ok cur hv _ _ _ _ _ hp ih =>
@@ -211,10 +217,17 @@ theorem Pass.quiet {jc : JCV} {rjs : List JobV} {s : Sys} {ac : Int} {cs : List 
     obtain ⟨c, hc, hrv⟩ := hcur x (List.mem_cons_of_mem _ hx)
     refine ⟨c, ?_, hrv⟩
     simp only [applyWrite, findJob_setJob]
-    have hn : (rejectedJob s j cur).name = j.name := (findJob_some_name hfj : cur.name = j.name)
+    have hn : (rejectedJob s (rejMsg jc ac) j cur).name = j.name :=
+      (findJob_some_name hfj : cur.name = j.name)
     rw [if_neg (by rw [hn]; exact fun he => hnd.1 x hx he.symm)]
     exact hc
   | rejectLost cur _ _ _ _ _ _ _ ha =>
+    intro hf; rw [nextFault_of_nil hf] at ha; exact absurd ha (by decide)
+  | @rejectNoop j rest s ac cs s' ok cur _ _ _ _ hfj _ _ _ _ _ ih =>
+    intro hf hac hnd hcur
+    simp only [List.map_cons, List.nodup_cons] at hnd
+    exact ih (by simp [failWrite, hf]) hac hnd.2 (fun x hx => hcur x (List.mem_cons_of_mem _ hx))
+  | rejectNoopLost cur _ _ _ _ _ _ _ ha =>
     intro hf; rw [nextFault_of_nil hf] at ha; exact absurd ha (by decide)
   | casFail _ hne => intro _ hac; exact absurd hac.symm hne
   | @startFail j rest s ac res _ _ _ hwhy =>
@@ -427,6 +440,8 @@ theorem Pass.no_cas_fail {jc : JCV} {rjs : List JobV} {s : Sys} {ac : Int} {cs :
   | rejectFail => intros; simp
   | rejectOk => intros; simp
   | rejectLost => intros; simp
+  | rejectNoop => intros; simp
+  | rejectNoopLost => intros; simp
   | casFail _ hne => intro hac; exact absurd hac.symm hne
   | startFail => intros; simp
   | startOk => intros; simp
@@ -440,18 +455,25 @@ theorem canStartJob_forbid (s : Sys) (jc : JCV) (j : JobV) (ac : Int)
     (∃ res, res ≠ "ok" ∧ writeRefused s j ∧
         canStartJob s jc j ac = (failWrite s "reject" j.name res, .error)) ∨
     (∃ cur, findJob s.jobs j.name = some cur ∧ cur.rv = j.rv ∧ ¬ faultBlocks s ∧
-        canStartJob s jc j ac = (applyWrite s "reject" j.name (rejectedJob s j cur),
+        rejectF (rejMsg jc ac) j cur ≠ cur ∧
+        canStartJob s jc j ac = (applyWrite s "reject" j.name (rejectedJob s (rejMsg jc ac) j cur),
+          if nextFault s = "applied-err" then .error else .skip)) ∨
+    (∃ cur, findJob s.jobs j.name = some cur ∧ cur.rv = j.rv ∧ ¬ faultBlocks s ∧
+        rejectF (rejMsg jc ac) j cur = cur ∧
+        canStartJob s jc j ac = (failWrite s "reject" j.name "ok",
           if nextFault s = "applied-err" then .error else .skip)) := by
   rcases canStartJob_cases s jc j ac with ⟨h, heq⟩ | ⟨h, hl, heq⟩ | ⟨h, hl, hpol, hlim, heq⟩ |
       ⟨h, hl, hpol, hlim, heq⟩ | ⟨h, hl, hn, heq⟩
   · rw [h1] at h; cases h
   · rw [h4] at hl; cases hl
-  · rw [heq, rejectJobWrite_eq]
-    rcases apiWriteJob_cases s "reject" j (rejectF j) with ⟨res, hres, hw, hwhy⟩ |
-        ⟨cur, hf, hrv, hnb, hw⟩
+  · rw [heq]
+    rcases rejectJobWrite_cases s j (jc.name, ac) with ⟨res, hres, hw, hwhy⟩ |
+        ⟨cur, hf, hrv, hnb, hch, hw⟩ | ⟨cur, hf, hrv, hnb, hnoop, hw⟩
     · left; refine ⟨res, hres, hwhy, ?_⟩; rw [hw]; simp
-    · right; refine ⟨cur, hf, hrv, hnb, ?_⟩; rw [hw]
-      by_cases ha : nextFault s = "applied-err" <;> simp [ha, rejectedJob]
+    · right; left; refine ⟨cur, hf, hrv, hnb, hch, ?_⟩; rw [hw]
+      by_cases ha : nextFault s = "applied-err" <;> simp [ha, rejectedJob, rejMsg]
+    · right; right; refine ⟨cur, hf, hrv, hnb, hnoop, ?_⟩; rw [hw]
+      by_cases ha : nextFault s = "applied-err" <;> simp [ha]
   · omega
   · exact absurd ⟨Or.inl h2, h3⟩ hn
 
